@@ -79,6 +79,7 @@ CaseOf(x) == [prop |-> "C14", drv |-> "lex", start |-> IF IsWsdl(x) THEN "f.wsdl
 MCInit == c \in Space
 MCSpec == MCInit /\ [][UNCHANGED c]_vars
 DesignSafe == (Dev = {}) => AllSafe
+DesignSafeD == AllSafe
 Emit == PrintT(<<"CASE", ToJson(CaseOf(c))>>)
 
 \* payload texts: marker + the class's characters (the concretiser XML-escapes them into attribute values / text)
